@@ -208,6 +208,19 @@ Definition retain (k : rpoint) (cx : ctx) (x : src) : rv :=
        end.
 
 (* ---------------------------------------------------------------- *)
+(* Field positions in an untagged Ethernet frame (offset, length).  The harness compares this table on every run
+   with what the library's own getters return on a pattern frame (kind off). *)
+Definition L_ETH_SRC : nat * nat := (6%nat, 6%nat).        (* Ether.Src() *)
+Definition L_IP4_SRC : nat * nat := (26%nat, 4%nat).       (* 14 + IP4.Src() *)
+Definition L_IP6_SRC : nat * nat := (22%nat, 16%nat).      (* 14 + IP6.Src() *)
+Definition L_ARP_SHA : nat * nat := (22%nat, 6%nat).       (* 14 + arp[8:14] *)
+Definition L_ARP_SPA : nat * nat := (28%nat, 4%nat).       (* 14 + arp[14:18] *)
+Definition L_DHCP_XID : nat * nat := (46%nat, 4%nat).      (* 42 + DHCP4.XId() *)
+Definition L_DHCP_CHADDR : nat * nat := (70%nat, 6%nat).   (* 42 + DHCP4.CHAddr() *)
+Definition fsl (l : nat * nat) : src := FrameSl (fst l) (snd l).
+Definition fsub (frame : bytes) (l : nat * nat) : bytes := sub frame (fst l) (snd l).
+
+(* ---------------------------------------------------------------- *)
 (* Session state (hosttable.go, mactable.go) *)
 
 (* NameEntry (Type and Expire are not byte strings learned from packets) *)
@@ -573,22 +586,22 @@ Definition parse_create (cx : ctx) (xmac xip : src) (st : state) : state * optio
 Definition parse_hosts (c : cfg) (cx : ctx) (st : state) : state * option bytes * bool :=
   let frame := cx_frame cx in
   if (List.length frame <? 14)%nat then (st, None, false) else
-  let smac := sub frame 6 6 in
+  let smac := fsub frame L_ETH_SRC in
   if negb (N.land (nth 0 smac 0) 1 =? 0) then (st, None, false) else
   let et := be16_of frame 12 in
   if et =? 2048 then       (* IPv4 *)
-    let sip := sub frame 26 4 in
+    let sip := fsub frame L_IP4_SRC in
     if negb (beqb smac (c_host_mac c)) && in_lan c sip
-    then parse_create cx (FrameSl 6 6) (FrameSl 26 4) st else (st, None, false)
+    then parse_create cx (fsl L_ETH_SRC) (fsl L_IP4_SRC) st else (st, None, false)
   else if et =? 34525 then (* IPv6 *)
-    let sip := sub frame 22 16 in
+    let sip := fsub frame L_IP6_SRC in
     if negb (beqb smac (c_host_mac c)) &&
        (is_lla sip || (is_gua6 sip && negb (beqb smac (c_router_mac c))))
-    then parse_create cx (FrameSl 6 6) (FrameSl 22 16) st else (st, None, false)
+    then parse_create cx (fsl L_ETH_SRC) (fsl L_IP6_SRC) st else (st, None, false)
   else if et =? 2054 then  (* ARP: sender hardware / protocol address *)
-    let sip := sub frame 28 4 in
+    let sip := fsub frame L_ARP_SPA in
     if negb (beqb smac (c_host_mac c)) && in_lan c sip
-    then parse_create cx (FrameSl 22 6) (FrameSl 28 4) st else (st, None, false)
+    then parse_create cx (fsl L_ARP_SHA) (fsl L_ARP_SPA) st else (st, None, false)
   else (st, None, false).
 
 (* NewSession: host and router entries, copied from NICInfo (not from a packet) *)
@@ -654,7 +667,7 @@ Definition show_decl (cx : ctx) (typ : string) (cid mac xid : rv) (ip : bytes) :
   "D(" ++ typ ++ "," ++ hx (rd cx cid) ++ "," ++ hx (rd cx mac) ++ "," ++ hx ip ++ "," ++ hx (rd cx xid) ++ ")".
 (* the reply built in place from the request: type, chaddr, xid, yiaddr *)
 Definition show_reply (cx : ctx) (typ : string) (yi : bytes) : string :=
-  "R(" ++ typ ++ "," ++ hx (sub (cx_frame cx) 70 6) ++ "," ++ hx (sub (cx_frame cx) 46 4) ++ "," ++ hx yi ++ ")".
+  "R(" ++ typ ++ "," ++ hx (fsub (cx_frame cx) L_DHCP_CHADDR) ++ "," ++ hx (fsub (cx_frame cx) L_DHCP_XID) ++ "," ++ hx yi ++ ")".
 Close Scope string_scope.
 
 (* DHCP message as seen by the handler: locators of the options + oracle of the server's decision.
@@ -671,7 +684,7 @@ Record dhcpmsg := {
 }.
 
 Definition dm_cid_src (m : dhcpmsg) : src :=
-  match dm_cid m with Some l => FrameSl (fst l) (snd l) | None => FrameSl 70 6 end.
+  match dm_cid m with Some l => FrameSl (fst l) (snd l) | None => fsl L_DHCP_CHADDR end.
 Definition dm_name_src (m : dhcpmsg) : src :=
   match dm_name m with Some l => FrameSl (fst l) (snd l) | None => Fresh [] end.
 Definition dm_name_entry (cx : ctx) (m : dhcpmsg) : nameent :=
@@ -680,19 +693,19 @@ Definition dm_name_entry (cx : ctx) (m : dhcpmsg) : nameent :=
 Definition dhcp_step0 (cx : ctx) (m : dhcpmsg) (st : state) : state * list string :=
   let xcid := dm_cid_src m in
   let key := src_val cx xcid in
-  let xmac := FrameSl 70 6 in
+  let xmac := fsl L_DHCP_CHADDR in
   let reqip := match dm_reqip m with Some l => lval cx l | None => [] end in
   if dm_type m =? 1 then
     (* handleDiscover *)
     let st1 := lease_find_or_create cx xcid xmac (dm_name_src m) st in
     if dm_res m =? 2 then
-      let st2 := upd_lease key (fun l => l_with l (retain RP_lease_xid cx (FrameSl 46 4)) (l_name l) (l_ip l)) st1 in
+      let st2 := upd_lease key (fun l => l_with l (retain RP_lease_xid cx (fsl L_DHCP_XID)) (l_name l) (l_ip l)) st1 in
       match find_lease key (st_leases st2) with
       | Some l =>
           (* forceDecline(lease.ClientID, gw, lease.Addr.MAC, reqIP, p.XId()) when a usable address was requested *)
           let decl := if ip_unspec_or_invalid reqip then [] else
                       [show_decl cx "4" (retain RP_decline_cid cx (Held (l_cid l))) (retain RP_decline_mac cx (Held (l_mac l)))
-                                 (retain RP_decline_xid cx (FrameSl 46 4)) reqip] in
+                                 (retain RP_decline_xid cx (fsl L_DHCP_XID)) reqip] in
           (* SetDHCPv4IPOffer(lease.Addr.MAC, lease.IPOffer, NameEntry{Name: name}) *)
           let st3 := set_dhcpv4_offer cx (Held (l_mac l)) (dm_yi m) (dm_name_entry cx m) st2 in
           (st3, show_reply cx "2" (dm_yi m) :: decl)
@@ -717,7 +730,7 @@ Definition dhcp_step0 (cx : ctx) (m : dhcpmsg) (st : state) : state * list strin
       (* NAK; in the rebooting/rebinding paths a decline built from copies of the packet fields is sent by a goroutine *)
       let decl := if dm_cls m =? 3
                   then [show_decl cx "4" (retain RP_decline_cid cx xcid) (retain RP_decline_mac cx xmac)
-                                  (retain RP_decline_xid cx (FrameSl 46 4)) reqip]
+                                  (retain RP_decline_xid cx (fsl L_DHCP_XID)) reqip]
                   else [] in
       (st2, show_reply cx "6" [0;0;0;0] :: decl)
     else (st2, [])
@@ -729,7 +742,7 @@ Definition dhcp_step0 (cx : ctx) (m : dhcpmsg) (st : state) : state * list strin
     (* processClientPacket: an OFFER of another server seen on the client port: forceDecline with copies of
        the packet's client id, chaddr, yiaddr (locator dm_reqip) and xid *)
     (st, [show_decl cx "4" (retain RP_decline_cid cx xcid) (retain RP_decline_mac cx xmac)
-                    (retain RP_decline_xid cx (FrameSl 46 4)) reqip])
+                    (retain RP_decline_xid cx (fsl L_DHCP_XID)) reqip])
   else (st, []).
 
 Definition dhcp_step (cx : ctx) (m : dhcpmsg) (st : state) : state * list string :=
@@ -769,12 +782,12 @@ Record ramsg := {
 }.
 
 Definition ra_xmac (m : ramsg) : src :=
-  match ra_slla m with Some off => FrameSl off 6 | None => FrameSl 6 6 end.
+  match ra_slla m with Some off => FrameSl off 6 | None => fsl L_ETH_SRC end.
 
 (* the Router record after this advertisement; an existing router keeps its Addr *)
 Definition ra_mk (cx : ctx) (m : ramsg) (old : option router) : router :=
-  {| r_key := sub (cx_frame cx) 22 16;
-     r_ip := match old with Some r => r_ip r | None => retain RP_router_key cx (FrameSl 22 16) end;
+  {| r_key := fsub (cx_frame cx) L_IP6_SRC;
+     r_ip := match old with Some r => r_ip r | None => retain RP_router_key cx (fsl L_IP6_SRC) end;
      r_mac := match old with Some r => r_mac r | None => retain RP_router_mac cx (ra_xmac m) end;
      r_slla := match ra_slla m with Some off => retain RP_ndp_lla cx (FrameSl off 6) | None => Owned [] end;
      r_prefixes := map (fun p => retain RP_ndp_prefix cx (Fresh (mask_prefix (fst p) (sub (cx_frame cx) (snd p) 16)))) (ra_prefixes m);
@@ -792,7 +805,7 @@ Definition ra_step (cx : ctx) (m : ramsg) (fhost : option bytes) (st : state) : 
   match fhost with
   | None => st      (* "ra host cannot be nil" *)
   | Some _ =>
-      let key := sub (cx_frame cx) 22 16 in
+      let key := fsub (cx_frame cx) L_IP6_SRC in
       match find (fun r => beqb (r_key r) key) (st_routers st) with
       | Some r => set_routers st (map (fun r' => if beqb (r_key r') key then ra_mk cx m (Some r') else r') (st_routers st))
       | None => set_routers st (st_routers st ++ [ra_mk cx m None])
@@ -878,8 +891,8 @@ Definition mdns_ent (cx : ctx) (model : rv) (a : list loc * nat * nat) : bytes *
   (sub (cx_frame cx) (snd (fst a)) (snd a),
    {| n_name := retain RP_mdns_name cx (Fresh (trim_suffix dot_local (fqdn cx (fst (fst a)))));
       n_model := model; n_manuf := Owned []; n_os := Owned [] |},
-   retain RP_mdns_mac cx (FrameSl 6 6)).
-Definition mdns_ckey (cx : ctx) (m : mdnsmsg) : bytes := sub (cx_frame cx) 6 6 ++ sub (cx_frame cx) (mq_id m) 2.
+   retain RP_mdns_mac cx (fsl L_ETH_SRC)).
+Definition mdns_ckey (cx : ctx) (m : mdnsmsg) : bytes := fsub (cx_frame cx) L_ETH_SRC ++ sub (cx_frame cx) (mq_id m) 2.
 
 Definition mdns_step (cx : ctx) (slot : nat) (m : mdnsmsg) (fhost : option bytes) (st : state) : state :=
   if negb (mq_resp m) then
@@ -1020,10 +1033,10 @@ Definition rstep (c : cfg) (s : store) (buf : nat) (frame : bytes) (k : pkind) (
     | KLlmnr m => (mdns_step cx NM_LLMNR m fhost st1, [])
     | KNbns l => (nbns_step cx l fhost st1, [])
     | KSsdp a b o => (ssdp_step cx a b o fhost st1, [])
-    | KCapture => (capture cx (FrameSl 6 6) st1, [])
-    | KRelease => (release cx (sub frame 6 6) st1, [])
-    | KApiUpdate ip name => (dhcpv4_update cx (FrameSl 6 6) (lval cx ip) (api_name cx name) st1, [])
-    | KApiOffer ip name => (set_dhcpv4_offer cx (FrameSl 6 6) (lval cx ip) (api_name cx name) st1, [])
+    | KCapture => (capture cx (fsl L_ETH_SRC) st1, [])
+    | KRelease => (release cx (fsub frame L_ETH_SRC) st1, [])
+    | KApiUpdate ip name => (dhcpv4_update cx (fsl L_ETH_SRC) (lval cx ip) (api_name cx name) st1, [])
+    | KApiOffer ip name => (set_dhcpv4_offer cx (fsl L_ETH_SRC) (lval cx ip) (api_name cx name) st1, [])
     end in
   (* Session.Notify *)
   let '(st3, nouts) :=
@@ -1032,7 +1045,7 @@ Definition rstep (c : cfg) (s : store) (buf : nat) (frame : bytes) (k : pkind) (
     | None =>
         match k with
         | KDhcp _ =>
-            match find_mac cx (sub frame 6 6) (st_macs st2) with
+            match find_mac cx (fsub frame L_ETH_SRC) (st_macs st2) with
             | Some e => if is_nil (me_offer e) then (st2, []) else notify_host cx (me_offer e) true st2
             | None => (st2, [])
             end
